@@ -13,6 +13,7 @@ import (
 // locals. Returns the site label name#k.
 func (x *Exec) siteAssertions(st *State, in ssa.Instruction, name string, args []Val) string {
 	x.calls[name]++
+	x.lastSite = name
 	site := fmt.Sprintf("%s#%d", name, x.calls[name])
 	// path-sensitive call counter (ghost), kept only for callees some clause asks about via ncalls("name")
 	// (incremented after the assertions of this site were evaluated: at a site, ncalls counts the
